@@ -9,7 +9,7 @@ Every run re-emits LLVM IR from /repo's working tree (cached by content hash of 
 of the tool chain), validates the translator against the gcc build of the real sources, and then
 discharges the property's query list with cbmc.
 """
-import argparse, concurrent.futures as cf, fcntl, glob, hashlib, json, os, re, resource, shlex, shutil, subprocess, sys, time
+import argparse, concurrent.futures as cf, fcntl, threading, glob, hashlib, json, os, re, resource, shlex, shutil, subprocess, sys, time
 
 VERIF = os.path.dirname(os.path.dirname(os.path.abspath(__file__)))
 REPO = os.environ.get("VERIF_REPO", "/repo")
@@ -174,7 +174,8 @@ def prepare(verbose=True):
 # ---------------------------------------------------------------------------------------- queries
 class Query:
     def __init__(self, name, harness, entry, defines=None, unwind=8, unwindset=None, lib="call", ub=True, frozen=False, timeout=None,
-                 cbmc_flags=None, expose=None, tiers=("quick", "thorough"), note="", solver=None, objbits=12, leak=False, known=None, inline=None, cc_defs=None, stubs=None, unit_flags=None, dyadic=None, memgb=None):
+                 cbmc_flags=None, expose=None, tiers=("quick", "thorough"), note="", solver=None, objbits=12, leak=False, known=None, inline=None, cc_defs=None, stubs=None, unit_flags=None, dyadic=None, memgb=None, est_gb=None):
+        self.est_gb = est_gb            # expected peak RSS of one cbmc process (admission control; the hard limit is memgb)
         self.name, self.harness, self.entry = name, harness, entry
         self.defines = defines or {}
         self.unwind, self.unwindset = unwind, unwindset or {}
@@ -439,6 +440,39 @@ def load_known():
     return known, fixed
 
 
+class MemBudget:
+    """admission control: the sum of the expected peaks of the running cbmc processes stays below 80% of RAM (the kernel OOM killer
+    otherwise turns verdicts into 'error'); a query killed anyway is re-run once with the whole budget to itself"""
+    def __init__(self):
+        tot = 32
+        try: tot = int(re.search(r"MemTotal:\s+(\d+)", open("/proc/meminfo").read()).group(1)) >> 20
+        except Exception: pass
+        self.total = max(4, int(tot * 0.8)); self.used = 0; self.cv = threading.Condition()
+    def acquire(self, gb):
+        gb = min(gb, self.total)
+        with self.cv:
+            while self.used + gb > self.total: self.cv.wait()
+            self.used += gb
+        return gb
+    def release(self, gb):
+        with self.cv: self.used -= gb; self.cv.notify_all()
+BUDGET = MemBudget()
+
+
+def run_pair(q, gb, cfile, gbw, cfilew, qdir, timeout, memgb):
+    est = q.est_gb or (q.memgb or 2)
+    for attempt in (0, 1):
+        got = BUDGET.acquire(2 * est if attempt == 0 else BUDGET.total)
+        try:
+            with cf.ThreadPoolExecutor(2) as ex:
+                fm = ex.submit(run_cbmc, q, gb, cfile, qdir, False, timeout, q.memgb or memgb)
+                fw = ex.submit(run_cbmc, q, gbw, cfilew, qdir, True, timeout, q.memgb or memgb)
+                main, wit = fm.result(), fw.result()
+        finally: BUDGET.release(got)
+        if not any(r["status"] != "timeout" and r.get("rc") == -9 for r in (main, wit)): break
+    return main, wit
+
+
 def run_query(q, cache, ll2c, pid, tier, keep, timeout, memgb):
     qdir = os.path.join(BUILD, "q", pid, q.name)
     if os.path.exists(qdir): shutil.rmtree(qdir)
@@ -453,10 +487,7 @@ def run_query(q, cache, ll2c, pid, tier, keep, timeout, memgb):
     rec["c_lines"] = sum(1 for _ in open(cfile))
     fns = re.findall(r"^[A-Za-z_][\w \*]*?\b(\w+)\([^;{]*\) \{$", open(cfile).read(), re.M)
     rec["functions_encoded"] = sorted(set(fns))
-    with cf.ThreadPoolExecutor(2) as ex:
-        fm = ex.submit(run_cbmc, q, gb, cfile, qdir, False, timeout, q.memgb or memgb)
-        fw = ex.submit(run_cbmc, q, gbw, cfilew, qdir, True, timeout, q.memgb or memgb)
-        main, wit = fm.result(), fw.result()
+    main, wit = run_pair(q, gb, cfile, gbw, cfilew, qdir, timeout, memgb)
     rec["seconds"] = round(time.time() - t0, 2)
     rec["cbmc_s"] = main["seconds"]; rec["witness_s"] = wit["seconds"]
     for k in ("vars", "clauses", "vccs", "vccs_remaining", "solver_s", "cmd"):
@@ -538,7 +569,7 @@ def main():
         futs = [ex.submit(run_query, q, cache, ll2c, a.pid, a.tier, a.keep, q.timeout or tcap, memgb) for q in qs]
         for f in cf.as_completed(futs):
             r = f.result(); recs.append(r)
-            print("[%s] %-40s %-12s %6.1fs %s" % (a.pid, r["name"], r.get("verdict"), r.get("seconds", 0), r.get("reason", "") or (r.get("error", "")[:300] if r.get("verdict") == "build-error" else "")), flush=True)
+            print("[%s] %-40s %-12s %6.1fs %s" % (a.pid, r["name"], r.get("verdict"), r.get("seconds", 0), (r.get("reason", "") + ((" | " + " ".join(r.get("tail", "")[-300:].split())) if "error" in (r.get("reason") or "") else "")) or (r.get("error", "")[:300] if r.get("verdict") == "build-error" else "")), flush=True)
     recs.sort(key=lambda r: r["name"])
     violations, knownhits, machinery = [], [], []
     qmap = {q.name: q for q in qs}
